@@ -84,6 +84,8 @@ type ChanObj struct {
 	Closed bool
 	Ticker bool // fed by the environment (time.Ticker): may deliver while Budget > 0
 	Budget int
+	Sent   int // schedule mode: values deposited / taken so far (rendezvous of unbuffered channels)
+	Recvd  int
 }
 
 // Opaque wraps a Go value owned by an intrinsic model (os.File, time, reflect ...).
